@@ -49,12 +49,19 @@ type plainBlock struct{ cipher.Block }
 
 // batchBlock exposes the concurrent-blocks interface and nothing else, so the
 // batched Go loops of internal/cipher/xts and cipher/hctr.go run instead of
-// the fused implementations. One batch is exactly Concurrency() blocks, taken
-// from the front of the slices it is handed.
+// the fused implementations (on amd64 this is the only way to reach the Go
+// batch code that e.g. ppc64x runs natively over the same sm4 block type).
+//
+// With the tier's own multi-block assembly behind it (nat != nil) the wrapper
+// is transparent by default: the caller's slices are handed on untouched,
+// exactly what the library's loops would give the sm4 block on an
+// architecture without fused XTS. With trim, and always for the synthetic
+// widths, one batch is exactly Concurrency() blocks taken from the front.
 type batchBlock struct {
 	b    cipher.Block
 	nat  concBlocks // the block's own multi-block assembly, nil if it has none or a synthetic width is asked for
 	conc int
+	trim bool
 }
 
 func (w *batchBlock) BlockSize() int          { return w.b.BlockSize() }
@@ -70,7 +77,9 @@ func (w *batchBlock) batch(dst, src []byte, dec bool) {
 	if len(src) < n || len(dst) < n {
 		panic(fmt.Sprintf("batched block handed %d/%d bytes, less than one batch of %d", len(dst), len(src), n))
 	}
-	dst, src = dst[:n:n], src[:n:n]
+	if w.nat == nil || w.trim {
+		dst, src = dst[:n:n], src[:n:n]
+	}
 	if w.nat != nil {
 		if dec {
 			w.nat.DecryptBlocks(dst, src)
@@ -90,7 +99,7 @@ func (w *batchBlock) batch(dst, src []byte, dec bool) {
 
 const synthConc = 4 // batch width of the batched path where the tier has no multi-block primitive
 
-func newBlock(path, conc int, key []byte) (cipher.Block, error) {
+func newBlock(path, conc int, trim bool, key []byte) (cipher.Block, error) {
 	b, err := sm4.NewCipher(key)
 	if err != nil {
 		return nil, err
@@ -99,7 +108,7 @@ func newBlock(path, conc int, key []byte) (cipher.Block, error) {
 	case pPlain:
 		return plainBlock{b}, nil
 	case pBatched:
-		w := &batchBlock{b: b, conc: conc}
+		w := &batchBlock{b: b, conc: conc, trim: trim}
 		if conc == 0 {
 			if nat, ok := b.(concBlocks); ok {
 				w.nat, w.conc = nat, nat.Concurrency()
@@ -131,6 +140,7 @@ type mcase struct {
 	Dec     bool
 	Path    int
 	Conc    int    // batched path: 0 = the tier's own batch (4 synthetic if none); >0 = synthetic batch of that many blocks
+	Trim    bool   // batched path over the tier's own batch: cut the slices to one batch before handing them on
 	KeySeed uint64 // key = Fill(KeySeed,16); second key (XTS tweak key, HCTR hash key) = Fill(KeySeed+1,16)
 	IV      h.B    // IV / initial counter / tweak, 16 bytes (unused for ecb)
 	Sector  bool   // XTS: use the ...WithSector constructor (IV = little-endian sector number || 0^64)
@@ -145,7 +155,7 @@ type mcase struct {
 }
 
 func (c mcase) Key() string {
-	return fmt.Sprintf("%s/%v/%d/%d/%x/%x/%v/%d/%x/%v/%v%v%v%v/%d", c.Mode, c.Dec, c.Path, c.Conc, c.KeySeed, []byte(c.IV), c.Sector,
+	return fmt.Sprintf("%s/%v/%d/%d%v/%x/%x/%v/%d/%x/%v/%v%v%v%v/%d", c.Mode, c.Dec, c.Path, c.Conc, c.Trim, c.KeySeed, []byte(c.IV), c.Sector,
 		c.Len, c.Seed, c.Parts, c.InPlace, c.GStart, c.DstLong, c.SetIV, c.Flip)
 }
 
@@ -225,7 +235,7 @@ func (o *obj) typeName() string {
 
 func (c *mcase) newObj(dec bool, iv []byte) (*obj, error) {
 	k1, k2 := c.keys()
-	creator := func(k []byte) (cipher.Block, error) { return newBlock(c.Path, c.Conc, k) }
+	creator := func(k []byte) (cipher.Block, error) { return newBlock(c.Path, c.Conc, c.Trim, k) }
 	o := &obj{dec: dec}
 	var err error
 	if isXTS(c.Mode) {
@@ -311,14 +321,47 @@ const (
 
 type bufOpt struct{ inPlace, gStart, dstLong bool }
 
+// Guard-page regions are mapped once per process and reused (mapping four
+// fresh regions per call made the kernel the bottleneck); every use
+// re-initialises the bytes it hands out, so no information flows between cases.
+const regionSize = 3 * 4096
+
+type region struct{ g *gen.Guarded }
+
+func (region) Free() {}
+
+var regionPool [2][3]*gen.Guarded // [guard at start][slot]
+
+type freer interface{ Free() }
+
 // guarded returns n data bytes that touch an inaccessible page at their end
 // (or, with gStart, at their start) and a canary strip on the other side.
-func guarded(n int, gStart bool) (g *gen.Guarded, data, canary []byte) {
-	g = gen.NewGuarded(n+margin, !gStart)
-	if gStart {
-		data, canary = g.B[:n:n], g.B[n:]
+// slot selects one of the reusable regions (src, dst, third party).
+func guarded(n int, gStart bool, slot int) (g freer, data, canary []byte) {
+	var B []byte
+	if n+margin <= regionSize {
+		o := 0
+		if gStart {
+			o = 1
+		}
+		if regionPool[o][slot] == nil {
+			regionPool[o][slot] = gen.NewGuarded(regionSize, !gStart)
+		}
+		g = region{}
+		B = regionPool[o][slot].B
+		if gStart {
+			B = B[: n+margin : n+margin]
+		} else {
+			B = B[regionSize-n-margin:]
+		}
 	} else {
-		canary, data = g.B[:margin], g.B[margin:]
+		fresh := gen.NewGuarded(n+margin, !gStart)
+		g, B = fresh, fresh.B
+	}
+	if gStart {
+		data, canary = B[:n:n], B[n:]
+	} else {
+		canary, data = B[:margin], B[margin:]
 	}
 	for i := range canary {
 		canary[i] = patCan
@@ -345,13 +388,13 @@ func (c *mcase) run(dec bool, iv, msg []byte, parts []int, o bufOpt) ([]byte, er
 		return nil, fmt.Errorf("constructor failed: %v", err)
 	}
 	n := len(msg)
-	gs, src, scan := guarded(n, o.gStart)
+	gs, src, scan := guarded(n, o.gStart, 0)
 	defer gs.Free()
 	copy(src, msg)
 	dst, dcan := src, scan
 	if !o.inPlace {
-		var gd *gen.Guarded
-		gd, dst, dcan = guarded(n, o.gStart)
+		var gd freer
+		gd, dst, dcan = guarded(n, o.gStart, 1)
 		defer gd.Free()
 		for i := range dst {
 			dst[i] = patDst
@@ -487,8 +530,17 @@ func (c *mcase) classify(r *h.Rec, msg []byte) {
 	r.Label(c.Mode)
 	r.Label("%s/%s/%s", c.Mode, dir, pathNames[c.Path])
 	r.Label("path=" + pathNames[c.Path])
-	if c.Path == pBatched && c.Conc > 0 {
-		r.Label("batched-synthetic-width=%d", c.Conc)
+	if c.Path == pBatched {
+		switch {
+		case c.Conc > 0:
+			r.Label("batched-synthetic-width=%d", c.Conc)
+		case nativeConc == 0:
+			r.Label("batched-synthetic-width=%d", synthConc)
+		case c.Trim:
+			r.Label("batched-own-asm-batch,trimmed")
+		default:
+			r.Label("batched-own-asm-batch,transparent")
+		}
 	}
 	n := c.Len
 	bulk := c.bulkWidth()
@@ -591,8 +643,8 @@ func checkCase(c mcase, r *h.Rec) error {
 	c.classify(r, msg)
 	desc := func() string {
 		k1, k2 := c.keys()
-		return fmt.Sprintf("mode=%s dec=%v path=%s conc=%d key=%x key2=%x iv=%x len=%d parts=%v inplace=%v guardstart=%v dstlong=%v msg=%s",
-			c.Mode, c.Dec, pathNames[c.Path], c.Conc, k1, k2, iv, c.Len, c.Parts, c.InPlace, c.GStart, c.DstLong, h.Hex(msg))
+		return fmt.Sprintf("mode=%s dec=%v path=%s conc=%d trim=%v key=%x key2=%x iv=%x len=%d parts=%v inplace=%v guardstart=%v dstlong=%v msg=%s",
+			c.Mode, c.Dec, pathNames[c.Path], c.Conc, c.Trim, k1, k2, iv, c.Len, c.Parts, c.InPlace, c.GStart, c.DstLong, h.Hex(msg))
 	}
 	opt := bufOpt{c.InPlace, c.GStart, c.DstLong}
 
@@ -905,6 +957,7 @@ func genCase(mode string) func(*rapid.T) mcase {
 		c.Path = rapid.IntRange(0, 2).Draw(t, "path")
 		if c.Path == pBatched {
 			c.Conc = rapid.SampledFrom([]int{0, 0, 0, 0, 1, 2, 3, 4, 8, 16}).Draw(t, "conc")
+			c.Trim = c.Conc == 0 && rapid.IntRange(0, 3).Draw(t, "trim") == 0
 		}
 		if hasDirection(mode) {
 			c.Dec = rapid.Bool().Draw(t, "dec")
@@ -1002,9 +1055,9 @@ func checkPanics(c panicCase, r *h.Rec) error {
 	var cans [][]byte
 	switch c.Kind {
 	case "short":
-		gs, s, sc := guarded(n, false)
+		gs, s, sc := guarded(n, false, 0)
 		defer gs.Free()
-		gd, d, dc := guarded(n-1, false)
+		gd, d, dc := guarded(n-1, false, 1)
 		defer gd.Free()
 		copy(s, msg)
 		src, dst, cans = s, d, [][]byte{sc, dc}
@@ -1014,7 +1067,7 @@ func checkPanics(c panicCase, r *h.Rec) error {
 		if a < 0 {
 			a = -a
 		}
-		g, buf, can := guarded(n+a, false)
+		g, buf, can := guarded(n+a, false, 2)
 		defer g.Free()
 		cans = [][]byte{can}
 		if shift > 0 {
